@@ -180,6 +180,9 @@ impl Check for Forwarder {
     fn components(&self) -> serde_json::Value {
         serde_json::json!({"real": ["examples/fee-forwarder-permissionless and -permissioned (from source)", "stellar_fee_abstraction::*", "fungible Base fee token", "access_control roles (permissioned)"], "stub": ["Target (records calls, requires the user's auth, scripted trap)", "Wallet"]})
     }
+    fn clock_step(&self, n: u32) -> Option<Step> {
+        Some(Step::Advance { n })
+    }
     fn dup_ok(&self, _s: &Step) -> bool {
         true
     }
